@@ -55,7 +55,9 @@ def settle(ctx):
     w = DeribitWorld(ctx, rows, cash=cash, timestamp=ts, price_index=S)
     w.instruments[name] = ins
     m = w.market
-    w.hold(name, n)
+    # part of what was bought may have been sold on an earlier bar: what settles is what is still HELD, not what was ever bought
+    sold = _dec(ctx.int_("sold_on_an_earlier_bar", 0, 3000)) if ctx.p.get("sold_before") else None
+    w.hold(name, n, sold=sold)
     w.hold(other["name"], D(3))
     n_act = len(w.actions)
     try:
@@ -254,5 +256,7 @@ def scenarios(tier):
                 if absent and when in ("before", "closed_after") and tier == "quick":
                     continue
                 out.append(Scenario(f"settle/{kind}/{when}/{'absent' if absent else 'present'}", settle, params=dict(kind=kind, when=when, absent=absent), shadows=SHADOWS, entry=("DeribitOptionMarket.update", "check_option_exercise", "_deliver_option", "get_deliver_fee"), nlsat=True, canary="CANARY settlement never pays" if when == "at" and not absent else None, max_paths=400))
+        for when in ("at", "after"):
+            out.append(Scenario(f"settle/{kind}/{when}/present/partly_sold_earlier", settle, params=dict(kind=kind, when=when, absent=False, sold_before=True), shadows=SHADOWS, entry=("DeribitOptionMarket.update", "check_option_exercise", "_deliver_option"), nlsat=True))
         out.append(Scenario(f"bars/{kind}", bar_loop, params=dict(kind=kind), shadows=SHADOWS, entry=("Actuator.run", "DeribitOptionMarket.set_market_status", "write_func gate", "DeribitOptionMarket.update", "check_option_exercise"), nlsat=True, canary="CANARY settlement never pays", max_paths=200, time_budget_s=400, witness_cap=12))
     return out
